@@ -173,6 +173,21 @@ def run_impl(case):
             if not same(one, pwf[:, i]):
                 prob.append(("elementwise", f"pointwise_cm: slice for threshold element {i} differs from the scalar-threshold call"))
                 break
+    # threshold_at_metric: one entry per target, each equal to the scalar call on that target (attainable or not)
+    if R.size >= 2 and len(pos_in) + len(neg_in) >= 2:
+        tl = [float(x) for x in R.reshape(-1)][:6]
+        for mname in ("tpr", "fnr", "tnr", "fpr", "topr"):
+            try:
+                many = s.threshold_at_metric(np.array(tl), mname)
+                ones = [s.threshold_at_metric(x, mname) for x in tl]
+            except ValueError:
+                continue
+            if len(many) != len(tl):
+                prob.append(("elementwise", f"threshold_at_metric({tl}, {mname!r}) returned {len(many)} entries for {len(tl)} targets"))
+            elif not all(same(a, b) for a, b in zip(many, ones)):
+                j_ = [same(a, b) for a, b in zip(many, ones)].index(False)
+                prob.append(("elementwise", f"threshold_at_metric({tl}, {mname!r})[{j_}] = {np.asarray(many[j_]).tolist()}, the scalar call on "
+                                            f"{tl[j_]} gives {np.asarray(ones[j_]).tolist()}"))
     # derived objects (GroupScores: swap(), per-group views): queries on the original and on the derived object, in either
     # order, leave each other's results unchanged, and equal those of freshly built objects
     if case.get("groups"):
